@@ -32,7 +32,7 @@ CLAIMS = {
          "Bounds as coded in harness-g/verifgen/cross/zz_verif_c03.go. Same fixture/stub caveats as C02. User-supplied template extensions/middlewares are not part of the fixture.",
          "DESIGN.md 4 (C03, stage G)"),
  "C05": ("For every engine and 5 fixture routes covering path/query/header/form locations, int/uint/int64/int8/bool/string/[]string/enum/pointer/context parameters: for every symbolic request (presence bits, values of up to 2 (thorough 3) bytes over digits, signs and letters, plus numerals around 2^32 and 2^63) "
-         "the controller receives position by position the value at the declared location converted to the declared type (reference numeral parsers written from the type's range), a missing non-pointer/path parameter or a non-convertible value is answered 422 without invoking the method, missing pointer parameters arrive as nil, context parameters are non-nil.",
+         "the controller receives position by position the value at the declared location converted to the declared type (reference numeral parsers written from the type's range; numerals around 2^31 for int, 2^32 for uint, 2^63 for int64), a missing non-pointer/path parameter or a non-convertible value is answered 422 without invoking the method, missing pointer parameters arrive as nil, context parameters are non-nil.",
          "Bounds as coded in harness-g/verifgen/cross/zz_verif_c05.go. strconv is interpreted from source. Outside: go-playground validator rules other than `required` (stub), JSON body decoding beyond the cases of C12, percent-decoding and header canonicalisation inside the real frameworks, floats.",
          "DESIGN.md 4 (C05, stage G)"),
  "C12": ("For each of the 7 fixture routes, one shared symbolic request (every location absent/empty/malformed/valid), shared callback answers and shared controller outcome (value or error) are run through the five generated handlers inside one path: same controller method with equal arguments (or none), same status, same JSON body as the gin router. "
@@ -53,8 +53,10 @@ CLAIMS = {
          "DESIGN.md 4 (C07)"),
  "C08": ("(gate) swagen.GenerateAndOutputSpec / GenerateSpec / both GenerateSpec run with the 3.0 validator, the 3.1 renderer, libopenapi.NewDocument, the 3.1 validator, os.MkdirAll and os.WriteFile replaced by nondeterministic stubs (every combination of success and failure, three openapi versions): "
          "the file is written at most once, only after the 3.0 validation - which always runs - and every step of the selected version succeeded, with the selected version's bytes; any failure or an unsupported version is an error and writes nothing. "
+         "(real validator) with kin-openapi's Validate itself interpreted from source instead of the stand-in: whatever swagen30.GenerateSpec returns for two routes whose templates coincide, differ only in a parameter name or are unrelated has, per operation, path parameters equal to the template names, all required and unique, and a description on every response; and for parameter/return/field types with and without components every $ref of the returned document resolves. "
+         "(model enums) components of enum types of five basic kinds list every value (two recorded findings: values written as text in 3.0, untagged in 3.1). "
          "(reference closure) for routes whose parameter (body/query/form), return and error types and whose model field range over declared, undeclared and nested (slice, map, slice of slice) type names, every $ref of the 3.0 document resolves to a component or is left unresolved (nil value) - which the always-executed 3.0 validation rejects - and the 3.1 document references nothing the 3.0 document does not. (closure facts) enum values put on a schema by enum=/oneof= rules are of the schema's declared type in both dialects (symbolic rule values); every $ref names an existing component (C07 harness); every response has a description (C06 harness); path-template/parameter correspondence is enforced by the always-executed kin-openapi validation (trusted).",
-         "Bounds as coded in harness/.../generator/swagen/zz_verif_c08.go. The gate harness is engine-only: injected library/OS faults cannot be reproduced by a native run, so its counterexamples are re-executed concretely inside the engine instead. Outside: the validity judgement of kin-openapi/libopenapi themselves and the JSON encoders (trusted libraries); info/servers copying (inside GenerateSpec, between stubs) is not asserted.",
+         "Bounds as coded in harness/.../generator/swagen/zz_verif_c08.go. The gate harness is engine-only: injected library/OS faults cannot be reproduced by a native run, so its counterexamples are re-executed concretely inside the engine instead. Enum value kinds in 3.1 are judged the way YAML resolves untagged scalars (model checked against the yaml library on every native replay). Outside: the validity judgement of libopenapi-validator (stand-in) and of kin-openapi beyond what the two real-validator harnesses exercise and the JSON encoders (trusted libraries); info/servers copying (inside GenerateSpec, between stubs) is not asserted.",
          "DESIGN.md 4 (C08)"),
  "C10": ("Receiver-level accept decision (CommonValidator + validateParams + annotation linker, as ReceiverValidator.Validate combines them) for every route with <=1 URL name, <=2 function parameters (primitive or struct, optional context), <=2 parameter annotations "
          "of the five kinds with symbolic values and optional name alias: no error diagnostic iff the property's linking/body/form/primitive rules hold (soundness and completeness asserted separately); return signature and verb rules; no duplicate diagnostics. "
@@ -74,6 +76,7 @@ CLAIMS = {
  "C11": ("Dialect agreement, decided on shared symbolic inputs inside one path: (kernel) for every validation string of up to 2 rules from the converters' vocabulary (or a junk rule) with symbolic values of up to 2 bytes, on 6 field types, "
          "BuildSchemaValidation (3.0) and BuildSchemaValidationV31 yield the same format, pattern, numeric bounds with exclusivity, length and item bounds, uniqueItems and enum value lists after dialect translation; "
          "(documents) the C01 and C04 harnesses run both emitters on the same symbolic flat IR and assert the same operations, operationIds, tags, deprecated flags and security for both; "
+         "(paths) both documents show the route at the same normalised path for every slash structure of prefix and route (up to 2 segments each); (components) through the front end, the component of every reachable type agrees field by field for 14 field type shapes; "
          "(operations) for routes with symbolic parameters (location, type, validator) and symbolic return shape / success code / 0-2 error codes - including an error code equal to the success code - both documents list the same parameters, request body and responses with the same schemas.",
          "Bounds as coded in harness/.../generator/swagen/zz_verif_c11.go, zz_verif_c01.go, zz_verif_c04.go. strconv.ParseFloat is interpreted from source (symbolic digits are enumerated). Component schemas are compared as far as the C07 harness goes.",
          "DESIGN.md 4 (C11)"),
@@ -81,7 +84,7 @@ CLAIMS = {
          "each under an arbitrary (symbolic) Go map iteration order of every map it ranges over, return the same controllers in the same (sorted) order with the same import serials. "
          "File enumeration: PackagesFacade.GetAllSourceFiles (which decides the order of a controller's routes) returns 3 files with symbolic names in the same order under every map iteration order. "
          "Spec writer: sortEnumValues/ForceOrderedJSON produce the same bytes for every arrival order of 3 symbolic enum values (strings of 1-2 bytes, numbers) at each of 7 placements in components.schemas. "
-         "Front end: two analyses of a three-file, two-controller project, the second with every map iterated forwards or backwards (one order per map), yield the same metadata in the same order. "
+         "Front end: two analyses of a three-file, two-controller project with enum and struct names that differ only in letter case, the second with every map iterated forwards or backwards (one order per map), yield the same metadata in the same order. "
          "No carried state (engine-only): registerPartials registers the same partials and extensions for a configuration whether or not another configuration (any engine, template override, template extension, unreadable file) was generated before it in the process.",
          "Bounds as coded in harness/.../core/pipeline/zz_verif_c13.go. Symbolic map iteration order is an engine feature (every range over a map forks over the remaining entries). Stand-ins in the engine-only harness: os.ReadFile, the handlebars library's process-wide partial registry. Outside: order of packages.Load results, Handlebars rendering, encoding/json key order, the date comment; getImports/getModels orderings are not driven.",
          "DESIGN.md 4 (C13)"),
@@ -107,7 +110,7 @@ CLAIMS = {
          "DESIGN.md 4 (C16)"),
  "C18": ("Range arithmetic: for every text of up to 5 units (ASCII incl. CR/LF, 2- and 3-byte UTF-8 sequences) and every rune-boundary offset, byteOffsetToLineCol equals a rune-counting reference; "
          "GetValueRange is start<=end, inside the comment's range and covers text equal to the value (or the whole comment when the value is absent), for symbolic start line/column in [0,65535]. "
-         "Front end: for 5184 perturbed source files (see C10) every diagnostic Validate produces names the fixture file, has error severity, lies inside the file with start not after end, is not reported twice, and covers the text it is about (the invalid verb, the dangling @Path reference, the unbound {name}, the parameter declaration, the declaration line for return-shape rules), positions being those of a real parse with indentation and multibyte text. "
+         "Front end: for 5184 perturbed source files (see C10) every diagnostic Validate produces names the fixture file, has error severity, lies inside the file with start not after end, is not reported twice, and covers the text it is about (the invalid verb, the dangling @Path reference, the unbound {name}, the parameter declaration, the declaration line for return-shape rules), positions being those of a real parse with indentation and multibyte text; a route conflict between two methods is reported at each method's @Route value in the file that holds the method (same file as the controller or a sibling file). "
          "The command's error text (GetDiagnosticsWithSeverity + DiagnosticsToError, as Run builds it) mentions every error diagnostic. "
          "Two recorded findings (byte column of a comment's start when multibyte characters precede the comment on its line; the error text repeats entities) are reported as KNOWN-FINDING.",
          "Bounds as coded in harness/.../core/annotations/zz_verif_c18.go and generator/swagen/zz_verif_front.go. Outside: several controllers per file and several files in the diagnostics harness, the command's error text.",
